@@ -43,8 +43,10 @@ type Sim struct {
 	IncentiveDeposited   map[string]*big.Int
 	Known                map[uint64]PosRec // harness's own record of live positions
 	MaxTicks             int
+	Gen                  int // bumped by every swap, time advance, incentive creation and claim
 	MaxLiq               *big.Int // max over the history of the summed liquidity of all positions (truncated)
-	Legacy               bool     // unscaled reward accumulators (pool id <= migration threshold)
+	Legacy               bool     // unscaled spread-reward accumulator (pool id <= migration threshold)
+	LegacyInc            bool     // unscaled incentive accumulators
 
 	// classes observed
 	Classes map[string]int
@@ -53,13 +55,17 @@ type Sim struct {
 	StrictExit bool
 
 	// hooks
-	OnSwap func(info SwapInfo)
+	OnSwap              func(info SwapInfo)
+	OnCollectIncentives func(id uint64, resp cltypes.MsgCollectIncentivesResponse)
 }
 
 type PosRec struct {
 	Owner        int
 	Lower, Upper int64
 	Join         time.Time
+	Gen          int  // value of Sim.Gen when the position was created (anything that moves accumulators bumps it)
+	Mods         int  // claims / partial withdrawals performed on the position since it was created
+	Entered      bool // the price has (possibly) been inside [Lower, Upper) since creation
 }
 
 type SwapInfo struct {
@@ -92,16 +98,23 @@ func New(rt *rapid.T, t *testing.T) *Sim {
 	params := k.GetParams(c.Ctx)
 	params.AuthorizedUptimes = []time.Duration{time.Nanosecond, time.Minute, time.Hour, 24 * time.Hour}
 	k.SetParams(c.Ctx, params)
-	// accumulator-scaling migration side: pools with id <= threshold use the legacy (unscaled) accumulators
-	if rapid.Bool().Draw(rt, "legacyAccumulators") {
+	// accumulator-scaling migration side, drawn independently for spread rewards and incentives (on mainnet the
+	// two thresholds differ): pools with id <= threshold use the legacy (unscaled) accumulators
+	if rapid.Bool().Draw(rt, "legacySpreadAccumulator") {
 		k.SetSpreadFactorPoolIDMigrationThreshold(c.Ctx, 1_000_000)
-		k.SetIncentivePoolIDMigrationThreshold(c.Ctx, 1_000_000)
 		s.Legacy = true
-		s.class("legacy-accumulator-scaling")
+		s.class("legacy-spread-accumulator")
 	} else {
 		k.SetSpreadFactorPoolIDMigrationThreshold(c.Ctx, 0)
+		s.class("scaled-spread-accumulator")
+	}
+	if rapid.Bool().Draw(rt, "legacyIncentiveAccumulators") {
+		k.SetIncentivePoolIDMigrationThreshold(c.Ctx, 1_000_000)
+		s.LegacyInc = true
+		s.class("legacy-incentive-accumulators")
+	} else {
 		k.SetIncentivePoolIDMigrationThreshold(c.Ctx, 0)
-		s.class("scaled-accumulators")
+		s.class("scaled-incentive-accumulators")
 	}
 	s.Spacing = int64(rapid.SampledFrom(cltypes.AuthorizedTickSpacing).Draw(rt, "spacing"))
 	s.Spread = rapid.SampledFrom(cltypes.AuthorizedSpreadFactors).Draw(rt, "spread")
@@ -242,9 +255,9 @@ func (s *Sim) CreatePosition(rt *rapid.T) {
 	if _, dup := s.Known[resp.PositionId]; dup {
 		rt.Fatalf("MsgCreatePosition returned position id %d which already exists", resp.PositionId)
 	}
-	s.Known[resp.PositionId] = PosRec{Owner: a, Lower: resp.LowerTick, Upper: resp.UpperTick, Join: s.C.Ctx.BlockTime()}
-	s.LPOps++
 	cur := s.Pool().GetCurrentTick()
+	s.Known[resp.PositionId] = PosRec{Owner: a, Lower: resp.LowerTick, Upper: resp.UpperTick, Join: s.C.Ctx.BlockTime(), Gen: s.Gen, Entered: first || (cur >= resp.LowerTick-1 && cur <= resp.UpperTick)}
+	s.LPOps++
 	switch {
 	case first:
 		s.class("first-position")
@@ -256,6 +269,26 @@ func (s *Sim) CreatePosition(rt *rapid.T) {
 		s.class("created-in-range")
 	}
 	s.log("create#%d a%d [%d,%d) %s liq=%s", resp.PositionId, a, resp.LowerTick, resp.UpperTick, coins, resp.LiquidityCreated)
+}
+
+// CreateSameRange opens a position by another owner over the range of an existing one (same block => same
+// join time when no time passed): the pair must then earn in proportion to liquidity.
+func (s *Sim) CreateSameRange(rt *rapid.T) {
+	_, p := s.pickPos(rt)
+	a := rapid.IntRange(0, NActors-1).Draw(rt, "owner")
+	a0, a1 := genAmount(rt, "amt0"), genAmount(rt, "amt1")
+	r := s.C.Exec(&cltypes.MsgCreatePosition{PoolId: s.PoolID, Sender: chain.Actor(a).String(), LowerTick: p.Lower, UpperTick: p.Upper, TokensProvided: sdk.NewCoins(coin(D0, a0), coin(D1, a1)), TokenMinAmount0: osmomath.ZeroInt(), TokenMinAmount1: osmomath.ZeroInt()})
+	if !r.OK() {
+		s.class("create-rejected")
+		return
+	}
+	var resp cltypes.MsgCreatePositionResponse
+	_ = r.Unpack(&resp)
+	cur := s.Pool().GetCurrentTick()
+	s.Known[resp.PositionId] = PosRec{Owner: a, Lower: resp.LowerTick, Upper: resp.UpperTick, Join: s.C.Ctx.BlockTime(), Gen: s.Gen, Entered: cur >= resp.LowerTick-1 && cur <= resp.UpperTick}
+	s.LPOps++
+	s.class("same-range-position")
+	s.log("createSame#%d a%d [%d,%d) %s/%s liq=%s", resp.PositionId, a, resp.LowerTick, resp.UpperTick, a0, a1, resp.LiquidityCreated)
 }
 
 func (s *Sim) pickPos(rt *rapid.T) (uint64, PosRec) {
@@ -285,7 +318,7 @@ func (s *Sim) AddToPosition(rt *rapid.T) {
 		rt.Fatalf("MsgAddToPosition returned position id %d which already exists", resp.PositionId)
 	}
 	delete(s.Known, id)
-	s.Known[resp.PositionId] = PosRec{Owner: p.Owner, Lower: p.Lower, Upper: p.Upper, Join: s.C.Ctx.BlockTime()}
+	s.Known[resp.PositionId] = PosRec{Owner: p.Owner, Lower: p.Lower, Upper: p.Upper, Join: s.C.Ctx.BlockTime(), Mods: 1, Entered: p.Entered}
 	s.LPOps += 2
 	s.class("add-to-position")
 	s.log("add#%d->#%d %s/%s", id, resp.PositionId, a0, a1)
@@ -322,10 +355,14 @@ func (s *Sim) Withdraw(rt *rapid.T) {
 		s.class("withdraw-rejected")
 		return
 	}
+	s.Gen++ // withdrawals may redeposit forfeited incentives
 	if full {
 		delete(s.Known, id)
 		s.class("full-withdrawal")
 	} else {
+		rec := s.Known[id]
+		rec.Mods++
+		s.Known[id] = rec
 		s.class("partial-withdrawal")
 	}
 	s.LPOps++
@@ -396,6 +433,7 @@ func (s *Sim) Swap(rt *rapid.T) {
 	s.Vol[in].Add(s.Vol[in], paid)
 	s.Vol[out].Add(s.Vol[out], got)
 	s.Swaps++
+	s.Gen++
 	p1 := s.Pool()
 	if p0.GetCurrentTick() != p1.GetCurrentTick() {
 		s.class("swap-changed-tick")
@@ -405,6 +443,17 @@ func (s *Sim) Swap(rt *rapid.T) {
 	}
 	if ts, err := clmath.TickToSqrtPrice(p1.GetCurrentTick()); err == nil && ts.Equal(p1.GetCurrentSqrtPrice()) {
 		s.class("swap-landed-exactly-on-tick")
+	}
+	lo, hi := p0.GetCurrentTick(), p1.GetCurrentTick()
+	if lo > hi {
+		lo, hi = hi, lo
+	}
+	for id, rec := range s.Known {
+		// conservative: ticks adjacent to the range count as "entered"
+		if !rec.Entered && hi >= rec.Lower-1 && lo <= rec.Upper {
+			rec.Entered = true
+			s.Known[id] = rec
+		}
 	}
 	if s.OnSwap != nil {
 		s.OnSwap(SwapInfo{ZeroForOne: zfo, ExactIn: exactIn, In: paid, Out: got, TickBefore: p0.GetCurrentTick(), TickAfter: p1.GetCurrentTick(), SqrtBefore: p0.GetCurrentSqrtPrice(), SqrtAfter: p1.GetCurrentSqrtPrice()})
@@ -422,6 +471,9 @@ func (s *Sim) CollectSpread(rt *rapid.T) {
 		s.class("collect-rejected")
 		return
 	}
+	rec := s.Known[id]
+	rec.Mods++
+	s.Known[id] = rec
 	s.Claims++
 	s.class("collect-spread")
 	s.log("collectSpread#%d", id)
@@ -442,7 +494,14 @@ func (s *Sim) CollectIncentives(rt *rapid.T) {
 	if !resp.ForfeitedIncentives.IsZero() {
 		s.class("claim-with-forfeiture")
 	}
+	rec := s.Known[id]
+	rec.Mods++
+	s.Known[id] = rec
+	if s.OnCollectIncentives != nil {
+		s.OnCollectIncentives(id, resp)
+	}
 	s.Claims++
+	s.Gen++
 	s.class("collect-incentives")
 	s.log("collectInc#%d got=%s forfeited=%s", id, resp.CollectedIncentives, resp.ForfeitedIncentives)
 }
@@ -466,7 +525,7 @@ func (s *Sim) Transfer(rt *rapid.T) {
 			if q.Address != chain.Actor(to).String() || q.LowerTick != p.Lower || q.UpperTick != p.Upper {
 				rt.Fatalf("transfer of #%d to a%d produced position %d {%s [%d,%d)}", id, to, q.PositionId, q.Address, q.LowerTick, q.UpperTick)
 			}
-			s.Known[q.PositionId] = PosRec{Owner: to, Lower: q.LowerTick, Upper: q.UpperTick, Join: q.JoinTime}
+			s.Known[q.PositionId] = PosRec{Owner: to, Lower: q.LowerTick, Upper: q.UpperTick, Join: q.JoinTime, Mods: 1, Entered: p.Entered}
 		}
 	}
 	s.LPOps += 2
@@ -501,6 +560,7 @@ func (s *Sim) CreateIncentive(rt *rapid.T) {
 		s.IncentiveDeposited[d] = new(big.Int)
 	}
 	s.IncentiveDeposited[d].Add(s.IncentiveDeposited[d], amt)
+	s.Gen++
 	s.class("incentive-created")
 	s.log("incentive %s%s rate=%s start=+%s uptime=%s", amt, d, rate, start.Sub(s.C.Ctx.BlockTime()), up)
 }
@@ -520,6 +580,7 @@ func (s *Sim) AdvanceTime(rt *rapid.T) {
 		dt = time.Duration(rapid.Int64Range(0, int64(3*24*time.Hour)).Draw(rt, "days"))
 	}
 	s.C.Advance(dt)
+	s.Gen++
 	s.log("+%s", dt)
 }
 
